@@ -19,6 +19,8 @@ def _step(st):
         return f"Send({st['id']}->{st['to']})" if c == "fresh" else f"Send({st['id']}->{st['to']},id={c})"
     if a == "Recv":
         return f"Recv({st['id']}:{st['ty']}:{st['from']})"
+    if a == "Attempt":
+        return f"Attempt({st['r']})"
     if a in ("Open", "Close"):
         return f"{a}({st['k']})" if "k" in st else a
     if a == "Call":
@@ -89,16 +91,30 @@ def run_tracker(chk, replay):
         sim, st3 = vf.tlc_simulate("IqTrackerGen.tla", "IqTrackerGenSim.cfg", num=150 if quick else 1500, depth=14 if quick else 24,
                                    seed=chk.seed, workers=TLC_WORKERS)
         allp, st5 = vf.tlc_gen("IqTrackerGen.tla", "IqTrackerGenAll.cfg" if quick else "IqTrackerGenAll7.cfg")
+        if not quick and len(allp) > 10000:      # seeded sample: stay inside the thorough budget
+            st5["replayed"] = 10000
+            random.Random(chk.seed + 2).shuffle(allp)
+            allp = allp[:10000]
         idp, st6 = vf.tlc_gen("IqTrackerGen.tla", "IqTrackerGenIds.cfg")
         # session histories: every sequence of openings / closings (up to 6, thorough 7 events) with one request sent at any
         # position, negotiated the classic way (SASL, bind, <enable/>, <resume/>) and once more with SASL 2 / bind 2 / inline
         # stream management; and a tour whose state includes which kinds of session the client has already had
         sess, st7 = vf.tlc_gen("IqTrackerGen.tla", "IqTrackerGenSess6.cfg" if quick else "IqTrackerGenSess.cfg")
-        sess2 = [dict(b, transport="sasl2") for b in sess]
+        # over SASL 2 / bind 2: the histories in which a resumption happens (quick), all of them (thorough)
+        sess2 = [dict(b, transport="sasl2") for b in sess
+                 if not quick or any(st["a"] == "Open" and st["k"] == "resumed" for st in b["steps"])]
         tsess, st8 = vf.tlc_gen("IqTrackerGen.tla", "IqTrackerGenTourSess.cfg")
+        # the tour includes every Attempt (connection attempt that ends before a session: auth failure, bind failure, user
+        # abort, cut before authentication; disconnectFromServer() without a connection) from every state and session
+        # history; the behaviours with an attempt are replayed over both transports.  Thorough: also all histories of length 4 with attempts.
+        tsess2 = [dict(b, transport="sasl2") for b in tsess if any(st["a"] == "Attempt" for st in b["steps"])]
+        if quick:
+            att, st9 = [], {"behaviours": 0}
+        else:
+            att, st9 = vf.tlc_gen("IqTrackerGen.tla", "IqTrackerGenAttempt.cfg")
         gen = {"all_paths": st5, "all_paths_caller_ids": st6, "session_histories": st7, "session_histories_sasl2": {"behaviours": len(sess2)},
-               "tour_session_history": st8, "tour_1_request": st1, "tour_2_requests": st2, "simulate": st3}
-        behs = allp + sess + sess2 + idp + tsess + t1 + t2 + sim
+               "tour_session_history": st8, "tour_session_history_sasl2": {"behaviours": len(tsess2)}, "attempt_histories": st9, "tour_1_request": st1, "tour_2_requests": st2, "simulate": st3}
+        behs = allp + sess + sess2 + idp + tsess + tsess2 + att + t1 + t2 + sim
         if not quick:
             t3, st4 = vf.tlc_gen("IqTrackerGen.tla", "IqTrackerGenTourFull.cfg")
             st4["replayed"] = min(len(t3), 15000)
@@ -247,7 +263,9 @@ def run(chk, replay=None):
                        "all send/reply sequences of length 4 with two requests and all id choices, "
                        "all session histories (open plain/sm/smr/resumed/refused-resume, cut, user close) of length 6 (thorough 7) with "
                        "one request sent at any position, over classic SASL+bind+XEP-0198 and over SASL 2 + bind 2 with inline "
-                       "resume/enable, a tour whose state includes the kinds of session the client has had, "
+                       "resume/enable, a tour whose state includes the kinds of session the client has had (both transports) and that takes "
+                       "every failed connection attempt (auth failure, bind failure, user abort, cut before authentication, "
+                       "disconnectFromServer() without a connection) from every state, "
                        "transition tour of the two-request model, seeded random walks with three requests; each replayed on a real "
                        "QXmppClient (sendIq, sendGenericIq) connected to a scripted server over 127.0.0.1 (real SASL, bind, XEP-0198 "
                        "enable/resume/failed resume, cut, disconnectFromServer, destruction) and validated by IqTrackerTrace.tla; "
